@@ -927,7 +927,9 @@ class NetConnections:
     @staticmethod
     def process_unix(file, family, inodes, filter_pid=None):
         """Parse /proc/net/unix files."""
-        with open_text(file) as f:
+        # newline="\n": a socket path may contain "\r"; only "\n" ends
+        # a record.
+        with open_text(file, newline="\n") as f:
             f.readline()  # skip the first line
             for line in f:
                 tokens = line.split()
